@@ -82,6 +82,8 @@ pub struct Cfg {
   pub max_repls: usize,
   pub max_text: usize,
   pub repl_names: bool,
+  /// C01 only: segments whose columns go backwards within a line
+  pub unsorted_maps: bool,
 }
 
 impl Cfg {
@@ -101,6 +103,7 @@ impl Cfg {
       max_repls: 4,
       max_text: 24,
       repl_names: true,
+      unsorted_maps: false,
     }
   }
   pub fn any() -> Self {
@@ -233,6 +236,9 @@ impl Gen {
       cols.sort();
       if !wild || self.rng.gen_bool(0.8) {
         cols.dedup();
+      }
+      if self.cfg.unsorted_maps && cols.len() > 1 && self.rng.gen_bool(0.5) {
+        cols.reverse();
       }
       for c in cols {
         if self.rng.gen_bool(0.15) {
@@ -941,6 +947,7 @@ pub fn generate(kind: &str, seed: u64, count: usize, out: &str) {
     "stream_any" | "views" => Cfg::any(),
     "identity" | "edit_pairs" => Cfg { inner_maps: true, wild_maps: false, depth: 3, ..Cfg::any() },
     "wild" => Cfg { inner_maps: true, custom: true, ..Cfg::any() },
+    "stream_unsorted" => Cfg { unsorted_maps: true, ..Cfg::any() },
     "replace_hist" => Cfg { depth: 1, wild_maps: false, ..Cfg::any() },
     "cached_hist" => Cfg { cached_under_replace: false, depth: 3, ..Cfg::ascii() },
     "orig_trees" => Cfg { sms: false, cached_under_replace: false, depth: 4, max_text: 30, ..Cfg::ascii() },
